@@ -78,6 +78,8 @@ def shards(tier, seed):
                 for masked in (((False, True) if mi % 2 == 0 else (False,)) if tier == "quick" else (False, True)):
                     out.append(dict(name="L%d/%s/m%d/%s" % (L, kind, mi, "mask" if masked else "nomask"), L=L, kind=kind,
                                     mi=mi, masked=masked, weight=2 ** L * len(MOTIF_SETS[mi])))
+    out.append(dict(name="L40/linear/long", L=40, kind="linear", mi=-1, masked=False, long=True, weight=3000))
+    out.append(dict(name="L33/conv/long", L=33, kind="conv", mi=-1, masked=True, long=True, weight=3000))
     return out
 
 
@@ -95,7 +97,7 @@ def run_shard(sh, tier, seed):
     from tangermeme.design import greedy_substitution
     rec = Recorder(PID, sh["name"])
     L, kind = sh["L"], sh["kind"]
-    motifs = [m for m in MOTIF_SETS[sh["mi"]]]
+    motifs = [m for m in MOTIF_SETS[sh["mi"]]] if sh["mi"] >= 0 else ["GGGCGGGC", "TTA", "C", "ACGTACG", "GATAA"]
     fit = [m for m in motifs if len(m) <= L]
     model = WModel(L, kind, seed)
     mask = torch.tensor([True, False, True]) if sh["masked"] else None
@@ -137,7 +139,8 @@ def run_shard(sh, tier, seed):
 
     seen = {}
     frontier = collections.deque()
-    for s0 in _starts(L):
+    start_list = _starts(L) if not sh.get("long") else [tuple((i * k + k // 2 + (i // 3)) % A for i in range(L)) for k in range(1, 7)]
+    for s0 in start_list:
         if s0 not in seen:
             seen[s0] = None
             frontier.append(s0)
@@ -223,7 +226,7 @@ def run_shard(sh, tier, seed):
                 elif loss_of(got) > loss_of(s):
                     rec.violation("greedy:final_loss_higher", dict(seq=s, max_iter=max_iter, tol=tol))
     rec.observe(sorted(seen)[:50], len(seen))
-    rec.sample(dict(L=L, model=kind, motifs=motifs, masked=sh["masked"], start_sequences=len(_starts(L)), states=len(seen),
+    rec.sample(dict(L=L, model=kind, motifs=motifs, masked=sh["masked"], start_sequences=len(start_list), states=len(seen),
                     example_transition=["".join(ALPH[c] for c in states[0]), "".join(ALPH[c] for c in (step_of.get(states[0]) or states[0]))]))
     return rec.result()
 
